@@ -15,3 +15,33 @@ package npm
 
 //@ func (*Version).Compare
 //@   comparator v ~ other                                 [C01]
+
+// ---- constructors: value xor error (C06); the fact is structural (untagged) because callers rely on it
+
+//@ func (*Ecosystem).NewVersion
+//@   ensures xor: (result0 != nil) == (result1 == nil)
+
+//@ func (*Ecosystem).NewVersionRange
+//@   ensures xor: (result0 != nil) == (result1 == nil)
+
+// ---- ranges (C02: a comparator holds exactly when Compare says so; groups joined by || are a union of intersections)
+
+//@ spec wfRange(nr *VersionRange) bool = forall g int :: 0 <= g && g < len(nr.constraintGroups) ==> (forall i int :: 0 <= i && i < len(nr.constraintGroups[g]) ==> nr.constraintGroups[g][i] != nil)
+
+//@ func (*constraint).matches
+//@   ensures op*: c.operator == "*" ==> result   [C02 C20]
+//@   ensures bad-bound: c.operator != "*" && !(theEcosystem().NewVersion(c.version).1 == nil) ==> !result   [C02 C20]
+//@   ensures op=: c.operator == "=" && theEcosystem().NewVersion(c.version).1 == nil ==> result == (version.Compare(theEcosystem().NewVersion(c.version).0) == 0)   [C02 C20]
+//@   ensures op!=: c.operator == "!=" && theEcosystem().NewVersion(c.version).1 == nil ==> result == (version.Compare(theEcosystem().NewVersion(c.version).0) != 0)   [C02 C20]
+//@   ensures op<: c.operator == "<" && theEcosystem().NewVersion(c.version).1 == nil ==> result == (version.Compare(theEcosystem().NewVersion(c.version).0) < 0)   [C02 C20]
+//@   ensures op<=: c.operator == "<=" && theEcosystem().NewVersion(c.version).1 == nil ==> result == (version.Compare(theEcosystem().NewVersion(c.version).0) <= 0)   [C02 C20]
+//@   ensures op>: c.operator == ">" && theEcosystem().NewVersion(c.version).1 == nil ==> result == (version.Compare(theEcosystem().NewVersion(c.version).0) > 0)   [C02 C20]
+//@   ensures op>=: c.operator == ">=" && theEcosystem().NewVersion(c.version).1 == nil ==> result == (version.Compare(theEcosystem().NewVersion(c.version).0) >= 0)   [C02 C20]
+//@   ensures other: c.operator != "=" && c.operator != "!=" && c.operator != "<" && c.operator != "<=" && c.operator != ">" && c.operator != ">=" && c.operator != "*" ==> !result   [C02 C20]
+
+//@ func (*VersionRange).Contains
+//@   requires wfRange(nr)
+//@   ensures or-of-and: result == (exists g int :: 0 <= g && g < len(nr.constraintGroups) && (forall i int :: 0 <= i && i < len(nr.constraintGroups[g]) ==> nr.constraintGroups[g][i].matches(version)))   [C02 C20]
+
+//@ lemma c20-equal [C20]: forall c *constraint, v1, v2 *Version :: trigger(c.matches(v1), c.matches(v2)) && c != nil && v1 != nil && v2 != nil && v1.Compare(v2) == 0 ==> c.matches(v1) == c.matches(v2)
+//@ lemma c20-convex [C20]: forall c *constraint, a, b, d *Version :: trigger(c.matches(a), c.matches(d), a.Compare(b), b.Compare(d)) && c != nil && a != nil && b != nil && d != nil && c.operator != "!=" && a.Compare(b) <= 0 && b.Compare(d) <= 0 && c.matches(a) && c.matches(d) ==> c.matches(b)
